@@ -256,6 +256,7 @@ pub fn make_case(channel: &str, lines: &[String], content: &[u8], cfg: &Cfg, rng
         env: vec![],
         file_name: String::new(),
         stdin_kind: 0,
+        stdin_offset: 0,
         relative_path: false,
         cwd: None,
         note: String::new(),
@@ -281,6 +282,7 @@ pub fn make_probe_case(content: &[u8], cfg: &Cfg, rng: &mut Rng) -> Case {
         env: vec![],
         file_name: String::new(),
         stdin_kind: 0,
+        stdin_offset: 0,
         relative_path: false,
         cwd: None,
         note: String::new(),
